@@ -349,7 +349,7 @@ class SecopClient(ProxyClient):
         except Exception:
             pass
 
-    def connect(self, try_period=0):
+    def connect(self, try_period=0, clear_shutdown=True):
         """establish connection
 
         if a <try_period> is given, repeat trying for the given time (sec)
@@ -357,7 +357,8 @@ class SecopClient(ProxyClient):
         with self._lock:
             if self.io:
                 return
-            self._shutdown.clear()
+            if clear_shutdown:
+                self._shutdown.clear()
             self.txq = queue.Queue(30)
             self.pending = queue.Queue(30)
             self.active_requests.clear()
@@ -542,7 +543,8 @@ class SecopClient(ProxyClient):
     def _reconnect(self, connected_callback=None):
         while not self._shutdown.is_set():
             try:
-                self.connect()
+                # do not clear a shutdown request: disconnect() is waiting for this thread
+                self.connect(clear_shutdown=False)
                 if connected_callback:
                     connected_callback()
                 break
